@@ -22,7 +22,7 @@ Un(op, a) == [t |-> op, a |-> a]
 Bin(op, a, b) == [t |-> op, a |-> a, b |-> b]
 
 a == <<97>>  b == <<98>>  sp == <<32>>  hash == <<35>>  eacute == <<233>>
-ab == <<97, 98>>  ac == <<97, 99>>  cc == <<99>>  ea == <<233, 97>>
+ab == <<97, 98>>  ac == <<97, 99>>  cc == <<99>>  ea == <<233, 97>>  qq == <<113>>
 
 \* ---- slices ------------------------------------------------------------------------
 Cfg ==
@@ -38,6 +38,12 @@ Cfg ==
          aux    |-> { [ty |-> "", e |-> S(a)], [ty |-> "_", e |-> Bin("seq", S(a), S(b))] },
          ws     |-> {"none", "_"},  cm |-> {"none"},
          sigma  |-> {97, 98, 32},  len |-> 5]
+    [] Slice = "restore" ->
+        [leaves |-> {}, unary |-> {}, binary |-> {}, size |-> 1,
+         tyM    |-> {"", "@"},
+         aux    |-> { [ty |-> "", e |-> Bin("seq", Id("POP"), S(qq))], [ty |-> "_", e |-> Bin("seq", Un("push", S(b)), S(qq))] },
+         ws     |-> {"none"},  cm |-> {"none"},
+         sigma  |-> {97, 98, 113},  len |-> 5]
     [] Slice = "core" ->
         [leaves |-> {S(a), S(b), Id("ANY"), Id("EOI"), Id("r1"), S(<<>>)},
          unary  |-> {"opt", "rep", "rep1", "not", "and"},
@@ -117,6 +123,19 @@ FactorExprs ==
             Bin("seq", Un("opt", Bin("seq", x, y)), z),
             Bin("seq", Bin("alt", Bin("seq", x, y), x), z) } : x \in FX, y \in FX, z \in FX }
 
+\* stack effects of failing alternatives: pre pushes, W(F) absorbs a failure of a stack-changing F,
+\* post observes the stack
+RestoreExprs ==
+  LET Pre  == { Bin("seq", Un("push", S(a)), Un("push", S(b))), Un("push", Id("ANY")) }
+      F    == { Id("POP_ALL"), Id("POP"), Bin("seq", Id("DROP"), S(qq)), Bin("seq", Un("push", S(a)), S(qq)),
+                Bin("seq", Id("POP"), S(qq)), Bin("seq", Id("POP_ALL"), S(qq)), Id("r1"),
+                Bin("seq", Id("PEEK"), Bin("seq", Id("DROP"), S(qq))) }
+      W(f) == { Un("opt", f), Bin("alt", f, S(b)), Un("rep", f), Bin("alt", f, Id("POP")),
+                Un("opt", Bin("alt", S(qq), f)) }
+      Post == { Id("PEEK_ALL"), Bin("seq", Id("POP"), Id("POP")), [t |-> "peek", lo |-> 0, hi |-> 1, open |-> FALSE],
+                Bin("seq", Id("DROP"), Id("DROP")), Id("POP_ALL") }
+  IN UNION { { Bin("seq", pre, Bin("seq", w, post)) : pre \in Pre, w \in W(f), post \in Post } : f \in F }
+
 \* ---- expression enumeration ----------------------------------------------------------
 MkUn(op, x) ==
   CASE op = "exact2"   -> [t |-> "exact", a |-> x, n |-> 2]
@@ -136,6 +155,7 @@ MaxSize == IF SizeOverride > 0 THEN SizeOverride ELSE Cfg.size
 MaxLen == IF LenOverride > 0 THEN LenOverride ELSE Cfg.len
 Exprs == CASE Slice = "skip"   -> SkipExprs(MaxSize)
            [] Slice = "factor" -> FactorExprs
+           [] Slice = "restore" -> RestoreExprs
            [] OTHER -> UNION { ExprsOfSize(n) : n \in 1..MaxSize }
 
 WsRule(ty) == [ty |-> ty, e |-> S(sp)]
